@@ -295,6 +295,12 @@ pub fn program_has_co_cycle(p: &Program) -> bool {
             succ[any].push(i);
         }
     }
+    // a blanket impl of a coinductive / auto trait applies to every type: every constructor can continue through it
+    if p.impls.iter().any(|im| co(im.head.tr) && ctor_of(&im.head.args[0]).is_none()) {
+        for i in 0..nc {
+            succ[i].push(any);
+        }
+    }
     for s in 0..=nc {
         let mut stack = succ[s].clone();
         let mut vis = vec![false; nc + 1];
